@@ -3,6 +3,7 @@ import M3d.Model.Bounded
 import M3d.Model.BoundedPoly
 import M3d.Model.BoundedPolyRect
 import M3d.Model.BoundedRectSet
+import M3d.Model.BoundedTriLine
 /-!
 Line-protocol handler for C03 (core-only).
 
@@ -20,6 +21,8 @@ Line-protocol handler for C03 (core-only).
         `rectCons3/rectCons2`, the box test of `[lo, hi]` per point (`M3d.C03.rect_polytope_contains`), the box `lo hi 1`
         that `Solid()` has to report (`rect_polytope_mesh_box`; `inv` for an inverted rect), and the box test again for
         `Solid().Contains` (`wrapper_does_not_cut_polytope_rect`)
+    c03 triline q th p1 p2 npts pts                   -> "1 <answers>": valid bounds and per point the definition of
+        `toolbox3d.TriangularLine(th, p1, p2)` (`triDef`), which `Contains` has to answer (`M3d.C03.wrapper_does_not_cut_triline`)
     c03 rsprog q <nstmts> <stmts> <npts> pts          -> per `Solid()` call of the program over `*RectSet` objects
         (`a|r <i> <6 coords>` = `v_i.Add/Remove`, `A|R <i> <j>` = `v_i.AddRectSet/RemoveRectSet(v_j)`, `N <i>` = `v_i = NewRectSet()`,
         `S <i>` = `v_i.Solid()`): `1:` (valid bounds) + per point "some rect stored in the receiver at that moment contains it"
@@ -434,7 +437,21 @@ def runPolyRect (N : Num α) (ws : List String) : Option String := do
   let csStr := String.join (cs.map fun l => " " ++ showPt N d3 l.1 ++ " " ++ N.render l.2)
   pure s!"{cs.length}{csStr} | {ans} | {boxStr} | {ans}"
 
+/-- `triline`: the requirement for `toolbox3d.TriangularLine(th, p1, p2)` (and the one-segment
+`TriangularPolygon`): valid bounds and, per point, the membership test of the definition
+(`M3d.C03.wrapper_does_not_cut_triline`, `triline_bounds_ordered`). -/
+def runTriLine (N : Num α) (ws : List String) : Option String := do
+  let (th, ws) ← pNum N ws
+  let (p1, ws) ← pPt N ws
+  let (p2, ws) ← pPt N ws
+  let (npts, ws) ← pNat ws
+  let (pts, ws) ← pMany (pPt N) npts ws
+  if !ws.isEmpty then none
+  let ans := String.join (pts.map fun p => boolStr (triDef th p1 p2 p))
+  pure s!"{boolStr (boxValid true (triBox th p1 p2))} {ans}"
+
 def handleWith (N : Num α) : List String → Option String
+  | "triline" :: ws => runTriLine N ws
   | "tree" :: ws => runTree N ws
   | "polycut" :: ws => runPolyCut N ws
   | "pvert" :: ws => runPolyVerts N ws
